@@ -5,8 +5,50 @@
 //! (tuples arity..) (nbuiltins n) (ntypes n))` for name in: `as-compiled`, `tree-shaken`.
 //! `--std`: instead of stdin, compile every bundled std module (via `%name` imports).
 use qvh::sexp::{self, Sexp};
+use qvh::TestEffect;
 use quiver_core::bytecode::{Bytecode, Constant, Instruction};
+use quiver_environment::{Command, Environment, EnvironmentError, Event, WorkerHandle};
 use std::collections::HashMap;
+use std::sync::{Arc, Mutex};
+
+/// A worker handle that only records the commands the environment sends (no worker behind it).
+struct Recorder(Arc<Mutex<Vec<Command<TestEffect>>>>);
+impl WorkerHandle<TestEffect> for Recorder {
+    fn send(&mut self, command: Command<TestEffect>) -> Result<(), EnvironmentError> {
+        self.0.lock().unwrap().push(command);
+        Ok(())
+    }
+    fn try_recv(&mut self) -> Result<Option<Event<TestEffect>>, EnvironmentError> {
+        Ok(None)
+    }
+}
+
+/// Environment that accumulates merged programs (`--merge N`: reset after N programs).
+struct Merger {
+    env: Environment<TestEffect>,
+    log: Arc<Mutex<Vec<Command<TestEffect>>>>,
+    count: usize,
+}
+impl Merger {
+    fn new() -> Self {
+        let log = Arc::new(Mutex::new(Vec::new()));
+        let env = Environment::<TestEffect>::new(vec![Box::new(Recorder(log.clone()))]);
+        Merger { env, log, count: 0 }
+    }
+    /// Merge `bc` behind whatever was merged before; returns the whole merged program with the
+    /// remapped entry.
+    fn merge(&mut self, bc: Bytecode) -> Result<Bytecode, String> {
+        self.log.lock().unwrap().clear();
+        self.env.start_process(Some(bc)).map_err(|e| format!("{:?}", e))?;
+        self.count += 1;
+        let entry = self.log.lock().unwrap().iter().find_map(|c| match c {
+            Command::StartProcess { function_index, .. } => *function_index,
+            _ => None,
+        });
+        let entry = entry.ok_or("no StartProcess command")?;
+        Ok(self.env.get_program().to_bytecode(Some(entry)))
+    }
+}
 
 pub fn dump_instr(i: &Instruction) -> String {
     match i {
@@ -63,7 +105,32 @@ pub fn dump_program(name: &str, bc: &Bytecode) -> String {
     s
 }
 
-fn compile_line(src: &str, modules: HashMap<Vec<String>, String>) -> String {
+/// Run the as-compiled program on one executor with the per-instruction trace hook on; returns
+/// `(trace <outcome> (fn pc stack_len locals_len locals_base frames_len)...)` (first `limit` entries
+/// of process 0).
+fn trace_line(bc: Bytecode, limit: usize) -> String {
+    use quiver_core::executor::verif;
+    verif::set_tracing(true);
+    let outcome = qvh::run_bytecode(bc);
+    let entries = verif::take_trace();
+    verif::set_tracing(false);
+    let mut s = format!("(trace {}", match outcome {
+        qvh::EvalOutcome::Ok(..) => "ok".to_string(),
+        qvh::EvalOutcome::RuntimeError(c, _) => format!("err-{}", c),
+        qvh::EvalOutcome::Panic(_) => "panic".to_string(),
+        _ => "other".to_string(),
+    });
+    for e in entries.iter().filter(|e| e.pid == 0).take(limit) {
+        s.push_str(&format!(
+            " ({} {} {} {} {} {})",
+            e.function_index, e.pc, e.stack_len, e.locals_len, e.locals_base, e.frames_len
+        ));
+    }
+    s.push(')');
+    s
+}
+
+fn compile_line(src: &str, modules: HashMap<Vec<String>, String>, merger: Option<&mut Merger>) -> String {
     let src = src.to_string();
     match qvh::guarded(move || qvh::compile_source(&src, modules)) {
         Err(loc) => format!("(panic \"{}\")", loc),
@@ -80,6 +147,18 @@ fn compile_line(src: &str, modules: HashMap<Vec<String>, String>) -> String {
                 }
                 Err(loc) => s.push_str(&format!(" (panic \"{}\")", loc)),
             }
+            if let Some(m) = merger {
+                let before = m.count;
+                let bc = c.program.to_bytecode_optimized(c.entry);
+                match qvh::guarded(|| m.merge(bc)) {
+                    Ok(Ok(b)) => {
+                        s.push(' ');
+                        s.push_str(&dump_program(&format!("merged-behind-{}", before), &b));
+                    }
+                    Ok(Err(e)) => s.push_str(&format!(" (merge-error {})", sexp::quote(&e))),
+                    Err(loc) => s.push_str(&format!(" (panic \"{}\")", loc)),
+                }
+            }
             s.push(')');
             s
         }
@@ -90,11 +169,20 @@ fn main() {
     qvh::quiet_panics();
     if std::env::args().any(|a| a == "--std") {
         for m in ["bin", "dict", "dns", "file", "fs", "int", "iter", "list", "num", "path", "range", "ref", "str", "vec"] {
-            println!("{}", compile_line(&format!("%{}", m), HashMap::new()));
+            println!("{}", compile_line(&format!("%{}", m), HashMap::new(), None));
         }
         return;
     }
+    let args: Vec<String> = std::env::args().collect();
+    let merge_every: Option<usize> = args.iter().position(|a| a == "--merge").map(|i| args[i + 1].parse().unwrap());
+    let mut merger = merge_every.map(|_| Merger::new());
+    let trace_limit: Option<usize> = args.iter().position(|a| a == "--trace").map(|i| args[i + 1].parse().unwrap());
     for line in qvh::stdin_cases() {
+        if let (Some(n), Some(m)) = (merge_every, merger.as_mut())
+            && m.count >= n
+        {
+            *m = Merger::new();
+        }
         let items = sexp::parse_all(&line);
         let src = items[0].atom().to_string();
         let mut modules = HashMap::new();
@@ -104,6 +192,13 @@ fn main() {
                 modules.insert(path, l[2].atom().to_string());
             }
         }
-        println!("{}", compile_line(&src, modules));
+        println!("{}", compile_line(&src, modules.clone(), merger.as_mut()));
+        if let Some(limit) = trace_limit {
+            let src2 = src.clone();
+            match qvh::guarded(move || qvh::compile_source(&src2, modules)) {
+                Ok(Ok(c)) => println!("{}", trace_line(c.program.to_bytecode(Some(c.entry)), limit)),
+                _ => println!("(trace none)"),
+            }
+        }
     }
 }
